@@ -69,6 +69,112 @@ type TProg struct {
 	// call back into the provider from there blocks on the unchanged tree and
 	// is not generated, see the package comment).
 	RecX int `json:"rec_x,omitempty"`
+	// Options of the stock batch span processors: BOpt of batch(exp), NOpt of
+	// batch(nil). See TBatchOpt.
+	BOpt TBatchOpt `json:"bopt"`
+	NOpt TBatchOpt `json:"nopt"`
+}
+
+// TBatchOpt is the option list of a stock batch span processor: bit i of Set
+// says that option i is given (0 WithMaxQueueSize(Q), 1
+// WithMaxExportBatchSize(B), 2 WithBatchTimeout(ToMs ms), 3
+// WithExportTimeout(XMs ms), 4 WithBlocking()). Without bit 2 the batch
+// timeout is one hour (the processors of a program export when they are
+// flushed, full or shut down).
+//
+// The processor around the recording exporter is kept lossless, because the
+// oracle expects every span ended while it was registered to be exported:
+// without WithBlocking its queue holds at least 256 spans (a program ends
+// fewer), and it does not block when its exporter is re-entrant in
+// ExportSpans (the nested End would wait for the worker that is making the
+// call). batch(nil) takes every combination.
+type TBatchOpt struct {
+	Set  int `json:"set,omitempty"`
+	Q    int `json:"q,omitempty"`
+	B    int `json:"b,omitempty"`
+	ToMs int `json:"to_ms,omitempty"`
+	XMs  int `json:"x_ms,omitempty"`
+}
+
+func (o TBatchOpt) blocking() bool { return o.Set&16 != 0 }
+
+func (o TBatchOpt) options() []sdktrace.BatchSpanProcessorOption {
+	var out []sdktrace.BatchSpanProcessorOption
+	if o.Set&1 != 0 {
+		out = append(out, sdktrace.WithMaxQueueSize(o.Q))
+	}
+	if o.Set&2 != 0 {
+		out = append(out, sdktrace.WithMaxExportBatchSize(o.B))
+	}
+	if o.Set&4 != 0 {
+		out = append(out, sdktrace.WithBatchTimeout(time.Duration(o.ToMs)*time.Millisecond))
+	} else {
+		out = append(out, sdktrace.WithBatchTimeout(time.Hour))
+	}
+	if o.Set&8 != 0 {
+		out = append(out, sdktrace.WithExportTimeout(time.Duration(o.XMs)*time.Millisecond))
+	}
+	if o.Set&16 != 0 {
+		out = append(out, sdktrace.WithBlocking())
+	}
+	return out
+}
+
+// valid: a batch timeout of at least 1 ms when it is given (a zero timeout
+// makes the worker of the unchanged processor spin); lossless says that the
+// processor serves the recording exporter (see above).
+func (o TBatchOpt) valid(lossless, reentrantExport bool) bool {
+	if o.Set < 0 || o.Set > 31 || o.Set&4 != 0 && o.ToMs < 1 {
+		return false
+	}
+	if lossless {
+		if o.blocking() && reentrantExport {
+			return false
+		}
+		if !o.blocking() && o.Set&1 != 0 && o.Q >= 0 && o.Q < 256 {
+			return false
+		}
+	}
+	return o.Q <= 1<<16 && o.B <= 1<<16
+}
+
+// classes labels what a batch processor was built with.
+func (o TBatchOpt) classes(name string, add func(string)) {
+	if o.Set == 0 {
+		add(name + ":default_options")
+		return
+	}
+	if o.blocking() {
+		add(name + ":blocking")
+	}
+	if o.Set&1 != 0 {
+		switch {
+		case o.Q < 0:
+			add(name + ":queue<0")
+		case o.Q == 0:
+			add(name + ":queue=0")
+		case o.Q <= 8:
+			add(name + ":queue_tiny")
+		default:
+			add(name + ":queue_large")
+		}
+	}
+	if o.Set&2 != 0 {
+		switch {
+		case o.B <= 0:
+			add(name + ":batch<=0")
+		case o.B <= 8:
+			add(name + ":batch_tiny")
+		default:
+			add(name + ":batch_large")
+		}
+	}
+	if o.Set&4 != 0 && o.ToMs <= 5 {
+		add(name + ":batch_timeout_tiny")
+	}
+	if o.Set&8 != 0 {
+		add(name + ":export_timeout_set")
+	}
 }
 
 // ---------------------------------------------------------------------
@@ -307,7 +413,8 @@ func validT(p TProg) bool {
 			ok = false
 		}
 	}
-	return ok && p.Pre >= 0 && p.Pre <= 64 && len(p.Gs) <= 8 && p.SspX >= 0 && p.SspX <= 1 && p.BspX >= 0 && p.BspX <= 3 && p.RecX >= 0 && p.RecX <= 31
+	return ok && p.Pre >= 0 && p.Pre <= 64 && len(p.Gs) <= 8 && p.SspX >= 0 && p.SspX <= 1 && p.BspX >= 0 && p.BspX <= 3 && p.RecX >= 0 && p.RecX <= 31 &&
+		p.BOpt.valid(true, p.BspX&2 != 0) && p.NOpt.valid(false, false)
 }
 
 func execTrace(p TProg) (*thist, func()) {
@@ -350,11 +457,11 @@ func execTrace(p TProg) (*thist, func()) {
 			pool[i] = sdktrace.NewSimpleSpanProcessor(nil)
 		case pBSP:
 			h.exps[i] = &recSpanExp{clock: clock}
-			bsp := sdktrace.NewBatchSpanProcessor(h.exps[i], sdktrace.WithBatchTimeout(time.Hour))
+			bsp := sdktrace.NewBatchSpanProcessor(h.exps[i], p.BOpt.options()...)
 			pool[i] = bsp
 			cleanup = append(cleanup, func() { _ = bsp.Shutdown(context.Background()) })
 		case pBSPNil:
-			bsp := sdktrace.NewBatchSpanProcessor(nil)
+			bsp := sdktrace.NewBatchSpanProcessor(nil, p.NOpt.options()...)
 			pool[i] = bsp
 			cleanup = append(cleanup, func() { _ = bsp.Shutdown(context.Background()) })
 		}
@@ -731,6 +838,13 @@ func oracleTraceSeq(h *thist) ([]vk.Violation, map[string]bool) {
 					if contains(members, pBSP) {
 						bspWant[c.X] = true
 					}
+					if contains(members, pBSPNil) {
+						cl["sampled_span_ended_on_batch(nil)"] = true
+						cl["sampled_span_ended_on_blocking_batch(nil)"] = cl["sampled_span_ended_on_blocking_batch(nil)"] || p.NOpt.blocking()
+					}
+					if contains(members, pSSPNil) {
+						cl["sampled_span_ended_on_simple(nil)"] = true
+					}
 				} else {
 					cl["end_of_ended_or_non_recording_span"] = true
 				}
@@ -1001,6 +1115,17 @@ func normaliseT(p *TProg) {
 	}
 	if !ever[pBSP] {
 		p.BspX = 0
+		p.BOpt = TBatchOpt{}
+	}
+	if !ever[pBSPNil] {
+		p.NOpt = TBatchOpt{}
+	}
+	// batch(exp) stays lossless (see TBatchOpt)
+	if p.BspX&2 != 0 {
+		p.BOpt.Set &^= 16
+	}
+	if o := &p.BOpt; !o.blocking() && o.Set&1 != 0 && o.Q >= 0 && o.Q < 256 {
+		o.Q += 256
 	}
 	if !ever[pRec2] {
 		p.RecX = 0
@@ -1009,6 +1134,21 @@ func normaliseT(p *TProg) {
 
 // reentrantClasses labels what the re-entrant exporters actually did.
 func reentrantClasses(h *thist, add func(string)) {
+	used := map[int]bool{}
+	for _, x := range h.p.Init {
+		used[x] = true
+	}
+	h.p.eachOp(func(_, _ int, op TOp) {
+		if op.K == "reg" {
+			used[op.X] = true
+		}
+	})
+	if used[pBSP] {
+		h.p.BOpt.classes("batch(exp)", add)
+	}
+	if used[pBSPNil] {
+		h.p.NOpt.classes("batch(nil)", add)
+	}
 	if h.p.RecX != 0 && shutdownsBefore(h.recs[pRec2].events(), never) > 0 {
 		add("reentrant_processor_shutdown_calls_back_into_provider")
 		for b, n := range []string{"Shutdown", "Tracer", "ForceFlush", "Unregister", "Register"} {
@@ -1048,8 +1188,35 @@ func genChunked[O any](t *rapid.T, g *rapid.Generator[O], maxChunks int) []O {
 	return out
 }
 
-// genReentrant draws the exporter modes (plain most of the time).
+// genTBatchOpt draws the options of a stock batch span processor: each one
+// unset, degenerate (zero, negative: the default applies), tiny or large.
+func genTBatchOpt(t *rapid.T, label string) TBatchOpt {
+	var o TBatchOpt
+	if rapid.IntRange(0, 3).Draw(t, label+"_default") == 0 {
+		return o
+	}
+	o.Set = rapid.IntRange(0, 31).Draw(t, label+"_set")
+	sizes := []int{-1, 0, 1, 1, 2, 3, 8, 512, 4096}
+	if o.Set&1 != 0 {
+		o.Q = rapid.SampledFrom(sizes).Draw(t, label+"_q")
+	}
+	if o.Set&2 != 0 {
+		o.B = rapid.SampledFrom(sizes).Draw(t, label+"_b")
+	}
+	if o.Set&4 != 0 {
+		o.ToMs = rapid.SampledFrom([]int{1, 1, 2, 5, 5000, 3600000}).Draw(t, label+"_to")
+	}
+	if o.Set&8 != 0 {
+		o.XMs = rapid.SampledFrom([]int{-1, 0, 1, 30000}).Draw(t, label+"_x")
+	}
+	return o
+}
+
+// genReentrant draws the exporter modes (plain most of the time) and the
+// options of the batch processors.
 func genReentrant(t *rapid.T, p *TProg) {
+	p.BOpt = genTBatchOpt(t, "bopt")
+	p.NOpt = genTBatchOpt(t, "nopt")
 	p.SspX = rapid.SampledFrom([]int{0, 0, 1}).Draw(t, "ssp_x")
 	p.BspX = rapid.SampledFrom([]int{0, 0, 1, 2, 3, 3}).Draw(t, "bsp_x")
 	if rapid.IntRange(0, 2).Draw(t, "rec_reentrant") == 0 {
@@ -1151,7 +1318,7 @@ func dedup(xs []string) []string {
 func TestTraceMembership(t *testing.T) {
 	vk.Run(t, vk.Spec[TProg]{
 		Property: "C15", Check: "trace_membership",
-		Rule: "generated op lists (1-80 ops: Register / Unregister of members, non-members, nil and a never-registered processor of non-comparable type / Tracer / Start / End / ForceFlush / Shutdown with live or already-cancelled contexts, repeated) on a TracerProvider built with 0-4 of a pool of 8 processors (4 recording ones, one of them failing, simple and batch processors around a recording exporter and around nil; the exporters are optionally re-entrant: their Shutdown, for the batch processor also their ExportSpans, starts and ends a span through the same provider; the Shutdown of rec2 optionally calls back into the provider: Shutdown / Tracer+Start+End / ForceFlush / Unregister(itself) / Register(fresh)), contexts live, cancelled or past their deadline (also for Start), each processor registered at most once; exact model of the ordered membership; " +
+		Rule: "generated op lists (1-80 ops: Register / Unregister of members, non-members, nil and a never-registered processor of non-comparable type / Tracer / Start / End / ForceFlush / Shutdown with live or already-cancelled contexts, repeated) on a TracerProvider built with 0-4 of a pool of 8 processors (4 recording ones, one of them failing, simple and batch processors around a recording exporter and around nil, the batch processors with generated options: WithMaxQueueSize / WithMaxExportBatchSize / WithBatchTimeout / WithExportTimeout each unset, zero, negative, tiny or large, and WithBlocking; the exporters are optionally re-entrant: their Shutdown, for the batch processor also their ExportSpans, starts and ends a span through the same provider; the Shutdown of rec2 optionally calls back into the provider: Shutdown / Tracer+Start+End / ForceFlush / Unregister(itself) / Register(fresh)), contexts live, cancelled or past their deadline (also for Start), each processor registered at most once; exact model of the ordered membership; " +
 			"non-trivial = the program unregisters a non-member or a middle member while the provider is up and makes a Start/End call after a Shutdown with a live context returned nil; distinct = distinct case encodings",
 		Quick: 6000, Thorough: 80000,
 		Gen: genTraceSeq, Run: runTraceSeq, Known: knownTrace,
